@@ -8,6 +8,7 @@ func init() {
 	vpRegister("VPH_C04_new_objects", VPH_C04_new_objects)
 	vpRegister("VPH_C04_mutate_then_observe", VPH_C04_mutate_then_observe)
 	vpRegister("VPH_C04_long_paths", VPH_C04_long_paths)
+	vpRegister("VPH_C04_wcc", VPH_C04_wcc)
 }
 
 func vpFtype(kind uint8) uint32 {
@@ -188,11 +189,41 @@ func VPH_C04_replies() {
 func VPH_C04_setattr_then_use() {
 	fs := vpAttrTree()
 	env := vpServer(fs, ExportOptions{})
-	objs := []string{"/d", "/d/f", "/d/s"}
+	objs := []string{"/d", "/d/f", "/d/s", "/d/l"}
 	p := objs[vpChoose("object", 0, len(objs)-1)]
 	h := env.handleFor(p)
 	mode := vpU32("mode") & 07777
 	var b vpBuf
+	if fs.nodes[p].kind == vpKLink {
+		// a symbolic link (whose target exists): only its times are set
+		rd := &vpRd{b: vpReplyBytes(env.call(NFSPROC3_SETATTR, b.fh(h).sattr(&vpSattr{setMtime: 2, mtimeSec: vpU32("mtime"), setAtime: uint32(vpChoose("atime-how", 0, 1))}).u32(0).Bytes()))}
+		if rd.u32() != NFS_OK {
+			return // whether times of a link can be set is the backend's business
+		}
+		vpReach("symlink")
+		if a, ok := rd.wccData(); ok {
+			vpAssert(a.ftype == NF3LNK, "setattr-reply-keeps-type")
+			vpAssert(a.fileid == vpFnv64a(p), "setattr-reply-keeps-fileid")
+		}
+		// the handle is still a link's: READLINK works, and every reply carrying its attributes says link
+		var g vpBuf
+		rg := &vpRd{b: vpReplyBytes(env.call(NFSPROC3_GETATTR, g.fh(h).Bytes()))}
+		vpAssert(rg.u32() == NFS_OK, "getattr-ok")
+		vpAttrAgrees(fs, p, rg.fattr(), "getattr-after-setattr")
+		var r vpBuf
+		rr := &vpRd{b: vpReplyBytes(env.call(NFSPROC3_READLINK, r.fh(h).Bytes()))}
+		vpAssert(rr.u32() == NFS_OK, "link-handle-still-readable-as-a-link")
+		if ra, ok := rr.postOp(); ok {
+			vpAttrAgrees(fs, p, ra, "readlink-after-setattr")
+		}
+		var l vpBuf
+		rl := &vpRd{b: vpReplyBytes(env.call(NFSPROC3_LOOKUP, l.fh(h).str("zz").Bytes()))}
+		vpAssert(rl.u32() == NFSERR_NOTDIR, "link-handle-is-not-a-directory")
+		if la, ok := rl.postOp(); ok {
+			vpAttrAgrees(fs, p, la, "lookup-through-link-after-setattr")
+		}
+		return
+	}
 	rd := &vpRd{b: vpReplyBytes(env.call(NFSPROC3_SETATTR, b.fh(h).sattr(&vpSattr{setMode: true, mode: mode}).u32(0).Bytes()))}
 	vpAssert(rd.u32() == NFS_OK, "setattr-mode-ok")
 	a, ok := rd.wccData()
@@ -460,4 +491,71 @@ func VPH_C04_long_paths() {
 		}
 	}
 	vpReach("long-path")
+}
+
+// VPH_C04_wcc: the post-operation attributes in the wcc_data of every mutating procedure describe
+// the directory (or file) that wcc_data is about: CREATE, MKDIR, SYMLINK, REMOVE and RMDIR in /d,
+// RENAME within /d or from /d into its subdirectory (fromdir_wcc and todir_wcc), WRITE on the file.
+func VPH_C04_wcc() {
+	fs := vpAttrTree()
+	fs.addAbsent("/d/n")
+	fs.addAbsent("/d/s/n")
+	env := vpServer(fs, ExportOptions{EnableDirCache: vpBool("dircache")})
+	hd, hs, hf := env.handleFor("/d"), env.handleFor("/d/s"), env.handleFor("/d/f")
+	if vpBool("expire-cache") {
+		vpSetClock(1_000_000_000 + 3600*1_000_000_000)
+	}
+	wcc := func(rd *vpRd, dir, tag string) {
+		a, ok := rd.wccData()
+		vpAssert(!rd.bad, tag+"-wcc-shape")
+		if ok {
+			vpReach("post-op-attributes-present")
+			vpAttrAgrees(fs, dir, a, tag)
+		}
+	}
+	var b vpBuf
+	sel := vpChoose("proc", 0, 6)
+	switch sel {
+	case 0, 1, 2:
+		var rd *vpRd
+		switch sel {
+		case 0:
+			rd = &vpRd{b: vpReplyBytes(env.call(NFSPROC3_CREATE, b.fh(hd).str("n").u32(0).sattr(&vpSattr{}).Bytes()))}
+		case 1:
+			rd = &vpRd{b: vpReplyBytes(env.call(NFSPROC3_MKDIR, b.fh(hd).str("n").sattr(&vpSattr{}).Bytes()))}
+		default:
+			rd = &vpRd{b: vpReplyBytes(env.call(NFSPROC3_SYMLINK, b.fh(hd).str("n").sattr(&vpSattr{}).str("f").Bytes()))}
+		}
+		vpAssert(rd.u32() == NFS_OK, "made")
+		if rd.u32() == 1 {
+			rd.opaque()
+		}
+		if a, ok := rd.postOp(); ok {
+			vpAttrAgrees(fs, "/d/n", a, "new-object")
+		}
+		wcc(rd, "/d", "dir-wcc-after-making")
+	case 3:
+		rd := &vpRd{b: vpReplyBytes(env.call(NFSPROC3_REMOVE, b.fh(hd).str("f").Bytes()))}
+		vpAssert(rd.u32() == NFS_OK, "removed")
+		wcc(rd, "/d", "dir-wcc-after-remove")
+	case 4:
+		rd := &vpRd{b: vpReplyBytes(env.call(NFSPROC3_RMDIR, b.fh(hd).str("s").Bytes()))}
+		vpAssert(rd.u32() == NFS_OK, "rmdir-done")
+		wcc(rd, "/d", "dir-wcc-after-rmdir")
+	case 5:
+		across := vpBool("into-subdirectory")
+		to, todir := hd, "/d"
+		if across {
+			to, todir = hs, "/d/s"
+			vpReach("rename-across-directories")
+		}
+		rd := &vpRd{b: vpReplyBytes(env.call(NFSPROC3_RENAME, b.fh(hd).str("f").fh(to).str("n").Bytes()))}
+		vpAssert(rd.u32() == NFS_OK, "renamed")
+		wcc(rd, "/d", "fromdir-wcc")
+		wcc(rd, todir, "todir-wcc")
+	case 6:
+		rd := &vpRd{b: vpReplyBytes(env.call(NFSPROC3_WRITE, b.fh(hf).u64(0).u32(2).u32(2).opaque([]byte{1, 2}).Bytes()))}
+		vpAssert(rd.u32() == NFS_OK, "written")
+		wcc(rd, "/d/f", "file-wcc")
+	}
 }
